@@ -295,8 +295,21 @@ func c12Table(c *Ctx, p *Prog) {
 				break
 			}
 			if len(args) != 4 || args[2].kind != cvInt || args[3].kind != cvInt {
-				evalErr = "the button or modifier passed to NewEventMouse is not decided by the code alone"
-				break
+				// the evaluation went through, and what reaches NewEventMouse depends on something
+				// besides the report's code (state of the screen, a pending Alt prefix): the button
+				// mask and the modifiers are to match the report
+				which := "button"
+				if len(args) == 4 && args[2].kind == cvInt {
+					which = "modifier"
+				}
+				for _, k := range []string{"button:mask", "modifier:bit-4", "modifier:bit-8", "modifier:bit-16"} {
+					if strings.HasPrefix(k, which) {
+						c.Fail("C12-R1", k, p.pos(fd.Pos()), fmt.Sprintf("for code %#x the %s handed to NewEventMouse is not determined by the code of the report: it also depends on state outside it", code, which))
+					} else {
+						c.OK("C12-R1", k, p.pos(fd.Pos()), "determined by the code (see the failing clause)")
+					}
+				}
+				return
 			}
 			evalGot[code], evalMod[code] = args[2].i, args[3].i
 		}
